@@ -691,3 +691,114 @@ def glide_scripts(rng, n_hist, n_step, n_ext):
     for i in range(n_ext):
         res.append(glide_extreme(rng, "gl-x%d" % i))
     return res
+
+
+# ------------------------------------------------------------------- shared primitives (utils, tables, phase accumulator)
+PA_KINDS = [(24, 10), (24, 8), (16, 4), (10, 10), (30, 12), (8, 1), (12, 12), (20, 10)]
+
+
+def rand_f32(rng):
+    """a float for the primitives: specials, table-like values in [-1, 1], wide log-uniform, raw bit patterns"""
+    r = rng.random()
+    if r < 0.15:
+        return rng.choice(SPECIAL_FLOATS)
+    if r < 0.55:
+        return f32(rng.uniform(-1.0, 1.0))
+    if r < 0.8:
+        return f32(rng.choice([-1, 1]) * 10 ** rng.uniform(-12, 12))
+    return from_bits(rng.getrandbits(32))
+
+
+def prim_script(rng, sid, n, tables=("sine", "attack", "decay")):
+    """direct calls of linear_interp / ilog_2 / is_almost / fabs and reads of the lookup tables as compiled"""
+    ops = ["prim.new"]
+    for t in tables:
+        ops.append("tabhash " + t)
+    for _ in range(n):
+        r = rng.random()
+        if r < 0.4:
+            if rng.random() < 0.6:
+                # the way the crate uses it: two neighbouring values and a fraction in [0, 1)
+                y0 = f32(rng.uniform(-1, 1))
+                y1 = f32(y0 + rng.uniform(-0.01, 0.01))
+                fr = rng.randrange(16384) / 16384.0
+                ops.append("interp %s %s %s" % (fhex(y0), fhex(y1), fhex(fr)))
+            else:
+                ops.append("interp %s %s %s" % (fhex(rand_f32(rng)), fhex(rand_f32(rng)), fhex(rand_f32(rng))))
+        elif r < 0.55:
+            k = rng.randrange(64)
+            x = rng.choice([0, 1, 2, 3, (1 << k), (1 << k) - 1, (1 << k) + 1, rng.getrandbits(rng.randrange(1, 65)),
+                            (1 << 64) - 1, 1024, 1023, 1025])
+            ops.append("ilog2 %x" % (x & ((1 << 64) - 1)))
+        elif r < 0.75:
+            if rng.random() < 0.6:
+                # around the glide dead band: |v1 - v2| near eps
+                v2 = f32(rng.choice([-1.0, 0.0, 0.5, 2.0, 5.0, rng.uniform(0, 10)]))
+                eps = f32(rng.choice([0.05, 0.05, 0.001, rng.uniform(0, 0.1)]))
+                d = rng.choice([eps, -eps, next_up(eps), next_down(eps), eps * 0.999, eps * 1.001, -eps * 1.001,
+                                rng.uniform(-2 * eps, 2 * eps), rng.uniform(-3, 3)])
+                ops.append("almost %s %s %s" % (fhex(f32(v2 + d)), fhex(v2), fhex(eps)))
+            else:
+                ops.append("almost %s %s %s" % (fhex(rand_f32(rng)), fhex(rand_f32(rng)), fhex(rand_f32(rng))))
+        elif r < 0.85:
+            ops.append("fabs " + fhex(rand_f32(rng)))
+        else:
+            ops.append("tab %s %d" % (rng.choice(tables), rng.choice([0, 1, 511, 512, 1022, 1023, rng.randrange(1024)])))
+    return Script(sid, ops, {"module": "prim", "family": "prim"})
+
+
+def prim_tables(sid, tables=("sine", "attack", "decay")):
+    """every entry of the lookup tables, as the compiler read them, against the translated tables of the model"""
+    ops = ["prim.new"]
+    for t in tables:
+        ops.append("tabhash " + t)
+        ops += ["tab %s %d" % (t, i) for i in range(1024)]
+    return Script(sid, ops, {"module": "prim", "family": "tables"})
+
+
+def pa_script(rng, sid, n, kind=None, extreme=False):
+    """the phase accumulator on its own, for several <TOTAL_NUM_BITS, NUM_INDEX_BITS> instantiations"""
+    tot, idx = kind or rng.choice(PA_KINDS)
+    fs = rng.choice(SPECIAL_FLOATS) if (extreme and rng.random() < 0.3) else rand_fs(rng)
+    ops = ["pa.new %d %d %s" % (tot, idx, fhex(fs))]
+    for _ in range(n):
+        r = rng.random()
+        if r < 0.08:
+            if extreme:
+                f = rng.choice(SPECIAL_FLOATS)
+            else:
+                f = rng.choice([0.0, fs, fs / 2, 1.0, 0.001, fs / (1 << idx), fs / (1 << tot), 3 * fs / (1 << tot),
+                                rng.uniform(0, fs), 10 ** rng.uniform(-4, math.log10(fs)), 1.5 * fs, 3 * fs])
+            ops.append("freq " + fhex(f32(f)))
+        elif r < 0.14:
+            if extreme:
+                t = rng.choice(SPECIAL_FLOATS)
+            else:
+                t = rng.choice([1e-3, 20.0, 1.0, 1 / fs, 2 / fs, 0.5 / fs, rng.uniform(1e-3, 20), 10 ** rng.uniform(-4, 2)])
+            ops.append("period " + fhex(f32(t)))
+        elif r < 0.2:
+            if extreme:
+                ph = rng.choice(SPECIAL_FLOATS)
+            else:
+                ph = rng.choice([0.0, 0.25, 0.5, 0.75, 0.999999, 1.0, 1.25, -0.25, 123.456, -7.7, 1e-8, rng.uniform(-3, 3),
+                                 rng.uniform(0, 1), from_bits(0x3f7fffff), from_bits(0x3f7ffffe), -1e-9, 1e20])
+            ops.append("phase " + fhex(f32(ph)))
+        elif r < 0.23:
+            ops.append("reset")
+        elif r < 0.33:
+            ops.append("roll")
+        else:
+            ops.append("tick")
+    return Script(sid, ops, {"module": "pa", "family": "pa-extreme" if extreme else "pa", "fs": fs})
+
+
+def prim_scripts(rng, n_prim, n_pa, tables=("sine", "attack", "decay"), kinds=None, full_tables=True):
+    res = []
+    if full_tables:
+        res.append(prim_tables("prim-tables", tables))
+    for i in range(n_prim):
+        res.append(prim_script(rng, "prim-%d" % i, rng.randrange(40, 200), tables))
+    for i in range(n_pa):
+        res.append(pa_script(rng, "pa-%d" % i, rng.randrange(40, 400), kind=rng.choice(kinds) if kinds else None,
+                             extreme=(i % 5 == 4)))
+    return res
